@@ -48,10 +48,36 @@ class Connection:
       else:
         return self._process_not_unique(previous)
     else:
+      self._check_segment_references(gfa)
       self._gfa = gfa
       self._initialize_references()
       self._gfa._register_line(self)
       return None
+
+  SEGMENT_REFERENCING_RECORD_TYPES = ["L", "C", "P", "E", "G", "F"]
+
+  def _check_segment_references(self, gfa):
+    """
+    Checks, before anything is changed, that the identifiers which the line
+    uses as segment references are not the names of lines of other types
+    (a virtual segment could not be created for them and the line would be
+    rejected after some of its other references have been already created).
+    """
+    if self.record_type not in self.SEGMENT_REFERENCING_RECORD_TYPES:
+      return
+    for fn in self.__class__.REFERENCE_FIELDS:
+      value = self.get(fn)
+      for ref in (value if isinstance(value, list) else [value]):
+        if isinstance(ref, gfapy.OrientedLine):
+          ref = ref.line
+        if isinstance(ref, str) and gfa.segment(ref) is None:
+          other = gfa.line(ref)
+          if other is not None and other.record_type != "\n":
+            raise gfapy.NotUniqueError(
+              "Line: {}\n".format(str(self))+
+              "The identifier {} is used as segment reference,\n".format(ref)+
+              "but it is the name of a line of another type: {}".format(
+                str(other)))
 
   @property
   def all_references(self):
